@@ -335,6 +335,14 @@ pub fn rcv_line(toks: &[&str]) -> String {
         script.push_back(ev);
     }
     let path = fresh_path();
+    // `nospace`: the target is a symbolic link to /dev/full - it can be created and truncated, every non-empty write fails with ENOSPC
+    let nospace = toks[5] == "nospace";
+    if nospace {
+        let _ = std::fs::remove_file(&path);
+        if std::os::unix::fs::symlink("/dev/full", &path).is_err() {
+            return "bad-op".into();
+        }
+    }
     let sh = Arc::new(Mutex::new(Shared {
         script,
         groups: vec![],
@@ -349,6 +357,9 @@ pub fn rcv_line(toks: &[&str]) -> String {
     let status = run_and_classify(sh.clone(), move || worker.receive().unwrap());
     let fin = if status == "running" || status == "panic" {
         "open".to_string()
+    } else if nospace {
+        // never read /dev/full: the directory entry is either still there (an empty "file") or gone
+        if std::fs::symlink_metadata(&path).is_ok() { format!("0:{}", fnv(&[])) } else { "none".to_string() }
     } else {
         match std::fs::read(&path) {
             Ok(c) => format!("{}:{}", c.len(), fnv(&c)),
